@@ -435,4 +435,175 @@ theorem safe_of_isOk {α : Type} {r : R α} (h : isOk r = true) : Safe r := by
 theorem combi_table : ∀ n : Fin 61, ∀ k : Fin 31, isOk (combi (n : Nat) (k : Nat)) = true := by
   decide +kernel
 
+/-- `getnxy` with the range of its result for a cell of the grid -/
+theorem wp_getnxy_range {nrows ncols idx : Int} {Q : Int × Int → Prop} (hg : InGrid nrows ncols idx)
+    (hc : 0 ≤ ncols)
+    (hq : ∀ x : Int × Int, 0 ≤ x.1 ∧ x.1 < ncols ∧ 0 ≤ x.2 ∧ x.2 < nrows → Q x) :
+    wp (getnxy ncols idx) Q := by
+  have hnz := ncols_ne_zero_of_inGrid hg
+  have hpos : 0 < ncols := by omega
+  unfold getnxy
+  refine wp_bind ⟨idx.tmod ncols, by simp [cmod, hnz], ?_⟩
+  refine wp_bind ⟨(idx - idx.tmod ncols).tdiv ncols, by simp [cdiv, hnz], ?_⟩
+  refine wp_pure (hq _ ?_)
+  have h1 := colOf_nonneg (ncols := ncols) (idx := idx) hpos hg.1
+  have h2 := colOf_lt (ncols := ncols) (idx := idx) hpos hg.1
+  have h3 := rowOf_nonneg (ncols := ncols) (idx := idx) hpos hg.1
+  have h4 := rowOf_lt (nrows := nrows) (ncols := ncols) (idx := idx) hpos hg.1 hg.2
+  unfold colOf at h1 h2
+  unfold rowOf colOf at h3 h4
+  exact ⟨h1, h2, h3, h4⟩
+
+theorem wp_bndIsOut {e : Ext} {ngrid ncols : Int} {mask : Nat → Int} {c : Int}
+    (hm : ngrid ≤ e .mask) (hc : 0 ≤ c ∧ c < ngrid) (hn : ngrid ≤ 4000000000000000000)
+    (hcol : 0 ≤ ncols ∧ ncols ≤ 2000000000) :
+    wp (bndIsOut e ngrid ncols mask c) (fun _ => True) := by
+  unfold bndIsOut
+  refine wp_bind (wp_forLoop (fun _ _ => True) _ _ _ trivial ?_ ?_)
+  · intro k _ hk0 hk1 _
+    have hs : -2000000000 ≤ bndShift ncols k ∧ bndShift ncols k ≤ 2000000000 := by
+      unfold bndShift; split <;> [skip; split <;> [skip; split]] <;> omega
+    wp_lin
+  · intro x _
+    cases x with
+    | inr x => exact nomatch x
+    | inl b => exact wp_pure trivial
+
+theorem wp_bndStep1 {e : Ext} {nval ngrid ncols : Int} {cells mask : Nat → Int}
+    (hv : 1 ≤ nval) (ha : nval ≤ e .idxcellsArea) (hb : nval ≤ e .buffer) (hm : ngrid ≤ e .mask)
+    (hcells : ∀ i : Nat, (i : Int) < nval → 0 ≤ cells i ∧ cells i < ngrid)
+    (hn : ngrid ≤ 4000000000000000000) (hcol : 0 ≤ ncols ∧ ncols ≤ 2000000000) :
+    wp (bndStep1 e nval ngrid ncols cells mask)
+      (fun r => ∀ buf, r = some buf → 1 ≤ buf.length ∧ (buf.length : Int) ≤ nval ∧
+        ∀ b ∈ buf, 0 ≤ b ∧ b < ngrid) := by
+  unfold bndStep1
+  have h0 := hcells 0 (by omega)
+  wp_lin
+  refine wp_forLoop (fun i (buf : List Int) => 1 ≤ buf.length ∧ (buf.length : Int) ≤ i ∧
+      ∀ b ∈ buf, 0 ≤ b ∧ b < ngrid) _ _ _ ?_ ?_ ?_
+  · refine ⟨by simp, by simp, ?_⟩
+    intro b hb'
+    simp at hb'
+    subst hb'
+    simpa using h0
+  · intro i buf hi0 hi1 hI
+    have hci := hcells i.toNat (by omega)
+    wp_lin
+    · refine wp_mono (wp_bndIsOut hm hci hn hcol) (fun isout _ => ?_)
+      wp_lin
+      · intro s' hs; cases hs
+        refine ⟨by simp, by simp; omega, ?_⟩
+        intro b hb'
+        rcases List.mem_append.1 hb' with h | h
+        · exact hI.2.2 b h
+        · simp at h; subst h; exact hci
+      · intro s' hs; cases hs
+        exact ⟨hI.1, by omega, hI.2.2⟩
+  · intro x hx
+    cases x with
+    | inr u => exact wp_pure (by intro buf h; cases h)
+    | inl buf =>
+      have := hx buf rfl
+      refine wp_pure ?_
+      intro buf' h; cases h
+      exact ⟨this.1, by omega, this.2.2⟩
+theorem sq_bound {x B : Int} (h0 : -B ≤ x) (h1 : x ≤ B) : 0 ≤ x * x ∧ x * x ≤ B * B := by
+  constructor
+  · nlinarith
+  · nlinarith
+
+/-- what the boundary walk keeps about `(next, knext)` and the buffer -/
+def BndOK (nrows ncols : Int) (n : Nat) (next knext : Int) : Prop :=
+  (knext = -1 ∨ (0 ≤ knext ∧ knext < n)) ∧ (0 ≤ knext → InGrid nrows ncols next)
+
+theorem wp_bndSearch {e : Ext} {nrows ncols cx cy : Int} {buf : List Int} {k : Int} {s : Int × Int × Int}
+    (hb : (buf.length : Int) ≤ e .buffer) (hk : 0 ≤ k ∧ k < buf.length)
+    (hbuf : ∀ b ∈ buf, b < 0 ∨ InGrid nrows ncols b)
+    (hcx : 0 ≤ cx ∧ cx < ncols) (hcy : 0 ≤ cy ∧ cy < nrows)
+    (hr : nrows ≤ 2000000000) (hc : 0 ≤ ncols ∧ ncols ≤ 2000000000)
+    (hs : BndOK nrows ncols buf.length s.1 s.2.1) :
+    wp (bndSearch e ncols cx cy buf k s)
+      (fun x => (∀ s', x = .inl s' → BndOK nrows ncols buf.length s'.1 s'.2.1) ∧
+                (∀ s', x = .inr s' → BndOK nrows ncols buf.length s'.1 s'.2.1)) := by
+  unfold bndSearch
+  refine wp_bind (wp_acc ⟨hk.1, by omega⟩ ?_)
+  have hlt : k.toNat < buf.length := by omega
+  have hmem : buf.getD k.toNat (-1) ∈ buf := by
+    simp only [List.getD_eq_getElem?_getD, List.getElem?_eq_getElem hlt, Option.getD_some]
+    exact List.getElem_mem _
+  generalize buf.getD k.toNat (-1) = b at hmem
+  simp only []
+  refine wp_ite (fun _ => wp_pure ⟨by intro s' h; cases h; exact hs, by intro s' h; cases h⟩) (fun hb0 => ?_)
+  have hg : InGrid nrows ncols b := (hbuf b hmem).resolve_left hb0
+  refine wp_bind (wp_getnxy_range hg hc.1 (fun bxy hxy => ?_))
+  have hdx := sq_bound (x := cx - bxy.1) (B := 2000000000) (by omega) (by omega)
+  have hdy := sq_bound (x := cy - bxy.2) (B := 2000000000) (by omega) (by omega)
+  norm_num at hdx hdy
+  have hnew : BndOK nrows ncols buf.length b k := ⟨Or.inr ⟨hk.1, by omega⟩, fun _ => hg⟩
+  wp_lin
+  all_goals (refine ⟨?_, ?_⟩ <;> intro s' h <;> cases h <;> first | (split <;> assumption) | assumption)
+
+/-- invariant of the boundary walk -/
+def BndInv (nrows ncols : Int) (n : Nat) (j : Int) (s : Bnd2) : Prop :=
+  InGrid nrows ncols s.idxcell ∧ s.buf.length = n ∧ (∀ b ∈ s.buf, b < 0 ∨ InGrid nrows ncols b) ∧
+  BndOK nrows ncols n s.next s.knext ∧ s.ibnd = j
+
+theorem wp_bndWalk {e : Ext} {nrows ncols dmax2 sx sy : Int} {n : Nat} {j : Int} {s : Bnd2}
+    (hb : (n : Int) ≤ e .buffer) (hbd : (n : Int) ≤ e .idxboundary) (hj : 0 ≤ j ∧ j < n)
+    (hr : nrows ≤ 2000000000) (hc : 0 ≤ ncols ∧ ncols ≤ 2000000000)
+    (hsx : 0 ≤ sx ∧ sx < ncols) (hsy : 0 ≤ sy ∧ sy < nrows)
+    (hI : BndInv nrows ncols n j s) :
+    wp (bndWalk e ncols dmax2 sx sy j s)
+      (fun x => (∀ s', x = .inl s' → BndInv nrows ncols n (j + 1) s') ∧
+                (∀ s', x = .inr s' → 0 ≤ s'.ibnd ∧ s'.ibnd < n)) := by
+  obtain ⟨hcell, hlen, hbuf, hok, hib⟩ := hI
+  unfold bndWalk
+  refine wp_bind (wp_getnxy_range hcell hc.1 (fun cxy hxy => ?_))
+  refine wp_bind (wp_acc ⟨hj.1, by omega⟩ ?_)
+  refine wp_bind (wp_forLoopP (fun _ (t : Int × Int × Int) => BndOK nrows ncols s.buf.length t.1 t.2.1)
+    (fun (t : Int × Int × Int) => BndOK nrows ncols s.buf.length t.1 t.2.1) _ _ _
+    (by rw [hlen]; exact hok) ?_ ?_)
+  · intro k t hk0 hk1 ht
+    exact wp_bndSearch (by rw [hlen]; exact hb) ⟨hk0, by omega⟩ hbuf ⟨hxy.1, hxy.2.1⟩ ⟨hxy.2.2.1, hxy.2.2.2⟩ hr hc ht
+  · intro r hinl hinr
+    have ht : ∀ t, (r = .inl t ∨ r = .inr t) → BndOK nrows ncols n t.1 t.2.1 := by
+      intro t h
+      rw [← hlen]
+      rcases h with h | h
+      · exact hinl t h
+      · exact hinr t h
+    have hdx := sq_bound (x := cxy.1 - sx) (B := 2000000000) (by omega) (by omega)
+    have hdy := sq_bound (x := cxy.2 - sy) (B := 2000000000) (by omega) (by omega)
+    norm_num at hdx hdy
+    cases r with
+    | inl t =>
+      have hk := ht t (Or.inl rfl)
+      obtain ⟨hk1, hk2⟩ := hk
+      simp only []
+      wp_lin
+      all_goals first
+        | (refine ⟨?_, ?_⟩ <;> intro s' h <;> cases h <;> first | (simp only []; omega) | skip)
+        | skip
+      all_goals first
+        | (refine ⟨hk2 (by omega), by simp [hlen], ?_, ⟨hk1, hk2⟩, rfl⟩
+           intro b hb'
+           rcases List.mem_or_eq_of_mem_set hb' with h | h
+           · exact hbuf b h
+           · left; omega)
+        | skip
+    | inr t =>
+      have hk := ht t (Or.inr rfl)
+      obtain ⟨hk1, hk2⟩ := hk
+      simp only []
+      wp_lin
+      all_goals first
+        | (refine ⟨?_, ?_⟩ <;> intro s' h <;> cases h <;> first | (simp only []; omega) | skip)
+        | skip
+      all_goals first
+        | (refine ⟨hk2 (by omega), by simp [hlen], ?_, ⟨hk1, hk2⟩, rfl⟩
+           intro b hb'
+           rcases List.mem_or_eq_of_mem_set hb' with h | h
+           · exact hbuf b h
+           · left; omega)
+        | skip
 end HydroVerif.C05
